@@ -194,9 +194,10 @@ PROPS = {
         "assumptions": COMMON_ASSUMPTIONS + ["unchecked reads are only issued when enabled in the model"],
     },
     "C19": {
-        "mc": ["session_q", "session_t"], "gen": ["threads", "decode", "encode", "chain", "roundtrip_ctl"],
+        "mc": ["session_q", "session_t"], "gen": ["threads", "history", "decode", "encode", "chain", "roundtrip_ctl"],
         "rule": "octets the worker process put on fd 1 / fd 2 around every call (measured per case); the same calls from 16 "
-                "threads at once, each result compared with the specification's function of its own arguments",
+                "threads at once (2 rounds, different rotations) and from one thread repeated in 3 different orders, each "
+                "result compared with the specification's function of its own arguments",
         "assumptions": COMMON_ASSUMPTIONS + ["the harness itself prints nothing (panic hook silenced)"],
     },
     "C20": {
